@@ -7,11 +7,11 @@ MON_C16 = {"Mon_CurrentUnique", "Mon_CurrentSchedule", "Mon_Next", "Mon_Monotone
 
 # classes whose predicate multiplies period and argument: the period is fixed to a literal chosen from
 # the seed (inputs only), which keeps every SMT query linear
-NONLINEAR = {"R_AtElapsedMax", "R_ProductWraps", "R_ProductWrapsSmall", "R_ProductNegative", "R_JustAboveBuffer"}
+NONLINEAR = {"R_AboveBufferBelowGuard", "R_AtElapsedMax", "R_ProductWraps", "R_ProductWrapsSmall", "R_ProductNegative", "R_JustAboveBuffer"}
 NL_PERIODS = [3, 25, 30, 1000, 3600, 65537, 1000003, 16777259, 2147483659, 4294967291, 4294967295, 7, 86400, 4, 1023, 4294901760]
 
 QUICK_CORE = ["R_BelowGuard", "R_AtGuard", "R_Pow2m1BelowGuard", "R_Pow2m1AtGuard", "R_MaxPeriodBelowGuard", "R_Max",
-              "R_JustAboveBuffer", "R_ProductWraps", "T_OnBoundaryFar", "T_BeforeBoundaryFar", "T_MaxAll",
+              "R_JustAboveBuffer", "R_AboveBufferBelowGuard", "R_ProductWraps", "T_OnBoundaryFar", "T_BeforeBoundaryFar", "T_MaxAll",
               "T_BigPeriodBefore", "T_Pow2m1Before", "T_MaxElapsed"]
 
 # boundary classes of Apa_RoundTime.tla: name -> (call kind, period free?, genesis free?)
@@ -23,7 +23,7 @@ CLASSES = {
     "R_HalfMax": ("TOR", 1, 1), "R_HalfMaxP1": ("TOR", 1, 1), "R_Zero": ("TOR", 1, 1), "R_One": ("TOR", 1, 1),
     "R_Two": ("TOR", 1, 1), "R_AtElapsedMax": ("TOR", 1, 1), "R_BetweenGuardAndLimit": ("TOR", 1, 1),
     "R_ProductWraps": ("TOR", 1, 1), "R_ProductWrapsSmall": ("TOR", 1, 1), "R_ProductNegative": ("TOR", 1, 1),
-    "R_JustAboveBuffer": ("TOR", 1, 1),
+    "R_JustAboveBuffer": ("TOR", 1, 1), "R_AboveBufferBelowGuard": ("TOR", 1, 1),
     "T_Genesis": ("CUR", 1, 1), "T_GenesisP1": ("CUR", 1, 1), "T_OnBoundaryFar": ("CUR", 1, 1),
     "T_BeforeBoundaryFar": ("CUR", 1, 1), "T_AfterBoundaryFar": ("CUR", 1, 1), "T_MaxElapsed": ("CUR", 1, 1),
     "T_MaxElapsedM1": ("CUR", 1, 1), "T_MaxAll": ("CUR", 0, 0), "T_BigPeriodBoundary": ("CUR", 1, 1),
@@ -85,7 +85,8 @@ def witness_module(classes, seed):
                "a%d \\in 0..%s" % (i, "(MaxU - 1)" if kind == "TOR" else "(MaxGenesis + MaxElapsed)")]
         conj.append("%s(p%d, g%d, a%d)" % (c, i, i, i))
         if c in NONLINEAR:
-            conj.append("p%d = %d" % (i, NL_PERIODS[((seed or 0) * 5 + i) % len(NL_PERIODS)]))
+            ps = [4294967294, 2147483646, 1073741822, 4294967291] if c == "R_AboveBufferBelowGuard" else NL_PERIODS
+            conj.append("p%d = %d" % (i, ps[((seed or 0) * 5 + i) % len(ps)]))
         elif pfree and seed is not None:   # seed-dependent diversification of the free coordinates
             conj.append("p%d %% 11 = %d" % (i, (seed * 7 + i * 3) % 11))
         if gfree and seed is not None:
@@ -141,11 +142,15 @@ def run(ctx, monitors):
     q = ctx.quick
     W = int(os.environ.get("VERIF_TLC_WORKERS", "0")) or None
     # ---- 1. design level: exhaustive TLC on the grid and on scaled-down machines
-    ctx.model_check("MC_RoundTime", "MC_RoundTime_grid.cfg", workers=W, timeout=300)
-    ctx.model_check("MC_RoundTime", "MC_RoundTime_word8.cfg", workers=W, timeout=300)
-    ctx.model_check("MC_RoundTime", "MC_RoundTime_word10.cfg", workers=W, timeout=600)
-    if not q:
-        ctx.model_check("MC_RoundTime", "MC_RoundTime_word12.cfg", workers=W, timeout=1500)
+    if os.environ.get("VERIF_DEV_SKIP_MC"):      # development only (mutation loops): the design runs do not depend on /repo
+        ctx.notes.append("design-level TLC runs skipped (VERIF_DEV_SKIP_MC)")
+        ctx.exhaustive = False
+    else:
+        ctx.model_check("MC_RoundTime", "MC_RoundTime_grid.cfg", workers=W, timeout=300)
+        ctx.model_check("MC_RoundTime", "MC_RoundTime_word8.cfg", workers=W, timeout=300)
+        ctx.model_check("MC_RoundTime", "MC_RoundTime_word10.cfg", workers=W, timeout=900)
+        if not q:
+            ctx.model_check("MC_RoundTime", "MC_RoundTime_word12.cfg", workers=W, timeout=2400)
 
     # ---- 2. vectors: TLC (grid + mid-range) ...
     cfg = os.path.join(ctx.work, "Sim_RoundTime.cfg")
